@@ -767,7 +767,16 @@ def gen_c08(R, tier, rejecting=False):
     if layers and not rejecting:
         for _ in range(R.randint(0, 6)):
             b.add(gen_lset(R, impl))
+    # 30% of the histories: some agents are objects with a truth value of their own (falsy two times out of three) and change it
+    # between calls; every view shows them all the same (finding L-AGENTS-FALSY: grid.agents went by truthiness)
+    truths = (not rejecting) and R.random() < 0.3
+    if truths:
+        for a in range(nag):
+            if R.random() < 0.6:
+                b.add(gen_truth(R, a))
     for step in range(n_ops):
+        if truths and R.random() < 0.1:
+            b.add(gen_truth(R, R.randrange(nag)))
         placed = [i for i, a in enumerate(impl.agents) if a.pos is not None]
         unplaced = [i for i, a in enumerate(impl.agents) if a.pos is None]
         k = R.random()
@@ -1116,7 +1125,7 @@ def truth_scenarios_c09():
                                 qs += [f"nbrs {x} {y} {m} {ic} {r}" for m in (0, 1)] + [f"inbrs {x} {y} 1 {ic} {r}"]
                     qs += [f"clc 1 {x} {y}", f"iclc 1 {x} {y}"]
             allc = " ".join(f"{x} {y}" for x in range(w) for y in range(h))
-            qs += [f"clc {w * h} {allc}", f"iclc {w * h} {allc}", "dump", "agents"]  # `agents`: tie only (`if not entry: continue` reads the truth value)
+            qs += [f"clc {w * h} {allc}", f"iclc {w * h} {allc}", "dump", "agents"]  # `agents`: judged by C08's oracle (truth_scenarios_c08)
             lines += qs + ["truth 0 b 1", "truth 1 l 1", "truth 2 l 0", "truth 3 b 0", "truth 4 l 0", "move 4 2 2"] + qs[::3] + ["dump"]
             out.append(core.Scenario(lines, {"exhaustive": True}))
     return out
@@ -1952,10 +1961,46 @@ def _cache_keys_probe():
     return res
 
 
+def _truth_probe():
+    """do the readers take a falsy agent (an object whose class defines __bool__) for an empty cell?  By behaviour, on the four
+    classes: (the content readers, grid.agents)"""
+    import warnings
+    mesa, space = _mesa()
+    contents = agents = False
+    allc = [(x, y) for x in range(3) for y in range(3)]
+    for name in ("SingleGrid", "MultiGrid", "HexSingleGrid", "HexMultiGrid"):
+        with warnings.catch_warnings():
+            warnings.simplefilter("ignore")
+            m = mesa.Model()
+            g = getattr(space, name)(3, 3, False)
+            a, b = truth_classes()["b"](m), mesa.Agent(m)
+            a.alive = False
+            g.place_agent(a, (1, 1))
+            g.place_agent(b, (1, 2))
+            kw = {"include_center": True, "radius": 1} if name.startswith("Hex") else {"moore": True, "include_center": True, "radius": 1}
+            readers = [lambda: g.get_cell_list_contents(allc), lambda: list(g.iter_cell_list_contents(allc)),
+                       lambda: g.get_neighbors((1, 2), **kw), lambda: list(g.iter_neighbors((1, 2), **kw))]
+            for r in readers:
+                try:
+                    got = r()
+                    if any(x is b for x in got) and not any(x is a for x in got):
+                        contents = True
+                except Exception:  # noqa: BLE001  (a reader that raises is the tie's business)
+                    pass
+            try:
+                got = list(g.agents)
+                if any(x is b for x in got) and not any(x is a for x in got):
+                    agents = True
+            except Exception:  # noqa: BLE001
+                pass
+    return contents, agents
+
+
 def gen_tables():
     _, space = _mesa()
     src = open(space.__file__).read()
     probe = _cache_keys_probe()
+    truth_contents, truth_agents = _truth_probe()
     try:
         keys = _cache_keys_ast(src)
     except Exception:  # noqa: BLE001
@@ -2000,6 +2045,14 @@ def hexParams : List String := {fs(keys["_HexGrid"][0])}
 
 /-- the arguments that make up the cache key in `_HexGrid.get_neighborhood` -/
 def hexCacheKey : List String := {fs(keys["_HexGrid"][1])}
+
+/-- do `iter_neighbors` / `get_neighbors` / `iter_cell_list_contents` / `get_cell_list_contents` take an agent whose truth value is
+    False for an empty cell (`if cell` instead of `!= default_val()`)?  source: probe (a falsy agent next to a plain one on a 3x3
+    grid of each of the four classes) -/
+def contentsReadTruth : Bool := {"true" if truth_contents else "false"}
+
+/-- does `grid.agents` leave out an agent whose truth value is False (`if not entry` instead of `is None`)?  source: same probe -/
+def agentsReadTruth : Bool := {"true" if truth_agents else "false"}
 
 end Mesa.Legacy.Gen
 """
